@@ -1,5 +1,5 @@
-"""setup: (re)generate the committed zoo sources deterministically and pre-build every build
-flavour used by the quick tier, so that the checks themselves only pay for incremental builds."""
+"""setup: regenerate the committed zoo sources deterministically (no-op when unchanged) and pre-build every
+build flavour used by the quick tier, so that the checks themselves only pay for incremental builds."""
 import os, subprocess, sys, time
 sys.path.insert(0, os.path.dirname(os.path.abspath(__file__)))
 import plan as PLAN
@@ -8,37 +8,43 @@ VERIF = os.path.dirname(os.path.dirname(os.path.abspath(__file__)))
 env = dict(os.environ)
 env["CARGO_NET_OFFLINE"] = "true"
 
-def sh(cmd, cwd, extra_env=None):
-    e = dict(env)
-    if extra_env:
-        e.update(extra_env)
-    t0 = time.time()
-    p = subprocess.run(cmd, cwd=cwd, env=e, stdout=subprocess.PIPE, stderr=subprocess.STDOUT, text=True)
-    print("[setup] %s (%.0fs) rc=%d" % (" ".join(cmd)[:150], time.time() - t0, p.returncode), flush=True)
-    if p.returncode != 0:
-        print(p.stdout[-3000:])
-    return p.returncode
 
-rc = 0
-# the generated sources are committed; regenerating them must be a no-op (determinism check)
-rc |= sh(["python3", os.path.join(VERIF, "gen", "zoo.py"), "--seed", "0", "--types", "60", "--families", "20",
-          "--out", os.path.join(VERIF, "harness", "vcore", "src", "zoo.rs"), "--abi-out", os.path.join(VERIF, "harness", "vabi", "src", "fam_gen.rs")], VERIF)
-seen = set()
+def run(cmd, cwd=None, env=None, timeout=None, capture=True):
+    e = dict(os.environ)
+    e["CARGO_NET_OFFLINE"] = "true"
+    if env:
+        e.update(env)
+    p = subprocess.run(cmd, cwd=cwd, env=e, stdout=subprocess.PIPE, stderr=subprocess.STDOUT, text=True, errors="replace")
+    return p.returncode, p.stdout or ""
+
+
+def log(*a):
+    print(*a, flush=True)
+
+
+rc, out = run(["python3", os.path.join(VERIF, "gen", "zoo.py"), "--seed", "0", "--types", "60", "--families", "20",
+               "--out", os.path.join(VERIF, "harness", "vcore", "src", "zoo.rs"), "--abi-out", os.path.join(VERIF, "harness", "vabi", "src", "fam_gen.rs")], cwd=VERIF)
+print("[setup] zoo generator rc=%d" % rc)
+failed = rc != 0
+seen = []
 for prop, P in sorted(PLAN.PROPS.items()):
     for r in P["runs"]["quick"]:
         for pf in r.get("plugins", []):
-            key = (pf, "vplugin")
-            if key not in seen:
-                seen.add(key)
-for prop, P in sorted(PLAN.PROPS.items()):
-    for r in P["runs"]["quick"]:
+            if (pf, "vplugin") not in seen:
+                seen.append((pf, "vplugin"))
         key = (r["build"], r.get("crate", "vh"))
-        seen.add(key)
-for (flavor, crate) in sorted(seen):
+        if key not in seen:
+            seen.append(key)
+done = set()
+for (flavor, crate) in seen:
     spec = PLAN.BUILDS[flavor]
-    ws = os.path.join(VERIF, PLAN.CRATES[crate]["workspace"])
-    cmd = PLAN.build_cmd(flavor, crate, "quick")
-    e = {"CARGO_TARGET_DIR": os.path.join(VERIF, "target", spec["target_dir"])}
-    e.update(spec.get("env", {}))
-    rc |= sh(cmd, ws, e)
-sys.exit(1 if rc else 0)
+    # all harness crates share one cargo invocation per flavour (except miri / single-package flavours)
+    k = (flavor, crate if (spec.get("runner") == "miri" or spec.get("single_package") or PLAN.CRATES[crate]["workspace"] != "harness") else "*")
+    if k in done:
+        continue
+    done.add(k)
+    ok, res = PLAN.build(VERIF, flavor, crate, "quick", run, log)
+    if not ok:
+        print(res)
+        failed = True
+sys.exit(1 if failed else 0)
